@@ -23,6 +23,11 @@ Cases == {[kind |-> "ctx", fmt |-> f, chain |-> ch, n |-> n, recs |-> r] :
 CovCases == {[kind |-> "cov", ranges |-> r] : r \in {<<<<20, 22, s>>>> : s \in {0, 1, 65533, 65534, 65535}}
                                                    \cup {<<<<20, 20, 0>>, <<30, 33, s>>>> : s \in {1, 65532, 65535}}}
 
+\* Device tables with any start / end size and delta format word (1..3 are the packed formats, 0x8000 marks a variation
+\* index, anything else is unknown), followed by 0..2 data words: iterating the deltas yields at most end - start + 1 values
+DevCases == {[kind |-> "dev", start |-> a, end |-> b, fmt |-> f, words |-> w] : a \in {0, 1, 5, 65535}, b \in {0, 1, 5, 65535}, f \in {0, 1, 2, 3, 4, 32768}, w \in 0..2}
+DevMax(case) == IF case.end >= case.start THEN case.end - case.start + 1 ELSE 0
+
 Active(case, k) == IF k = 0 THEN {10} ELSE IF k <= case.n THEN {10 + k} ELSE {}
 \* a sequence index that an earlier record of the rule already used need not be tracked: the nested lookup may then be
 \* applied to every glyph of the current set (an over-approximation the implementation takes from HarfBuzz for formats 1
@@ -32,10 +37,11 @@ ClosureMin(case) == Start \cup {g + 100 : g \in UNION {Active(case, case.recs[i]
 ClosureMax(case) == Start \cup {g + 100 : g \in UNION {RecActiveMax(case, i) : i \in DOMAIN case.recs}}
 SetToSeq(S) == LET RECURSIVE F(_) F(T) == IF T = {} THEN <<>> ELSE LET m == CHOOSE x \in T : \A y \in T : x <= y IN <<m>> \o F(T \ {m}) IN F(S)
 
-Init == c \in Cases \cup CovCases
+Init == c \in Cases \cup CovCases \cup DevCases
 Spec == Init /\ [][UNCHANGED c]_c
 \* the closure never loses a glyph and only adds images of the rule's own glyphs
 ClosureSane == c.kind = "ctx" => (Start \subseteq ClosureMin(c) /\ ClosureMin(c) \subseteq ClosureMax(c) /\ ClosureMax(c) \subseteq Start \cup {110, 111, 112})
 CaseDump == PrintT(<<"LAYCASE", ToJson(IF c.kind = "ctx" THEN [kind |-> "ctx", fmt |-> c.fmt, chain |-> c.chain, n |-> c.n, recs |-> c.recs, closure_min |-> SetToSeq(ClosureMin(c)), closure_max |-> SetToSeq(ClosureMax(c))]
-                                        ELSE [kind |-> "cov", ranges |-> c.ranges])>>)
+                                        ELSE IF c.kind = "cov" THEN [kind |-> "cov", ranges |-> c.ranges]
+                                        ELSE [kind |-> "dev", start |-> c.start, end |-> c.end, fmt |-> c.fmt, words |-> c.words, max |-> DevMax(c)])>>)
 =============================================================================
